@@ -135,9 +135,10 @@ Definition valid (ev : event) : bool :=
 
 (* ---- workspaces, histories ---- *)
 (* w_log: the IDs recovery feeds to UpdateOnSync, in its order: per logged event the new CUD ids, then the argument tree *)
-Record wstate := mkW { w_next : N; w_log : list N }.
+(* w_recs: the IDs of the records created so far (the stored IDs of all creates): the slots IRecords holds *)
+Record wstate := mkW { w_next : N; w_log : list N; w_recs : list N }.
 Definition state := N -> wstate.
-Definition w_init : wstate := mkW c04_first_user_id [].
+Definition w_init : wstate := mkW c04_first_user_id [] [].
 Definition st_init : state := fun _ => w_init.
 Definition upd (st : state) (ws : N) (w : wstate) : state := fun k => if k =? ws then w else st k.
 
@@ -145,14 +146,21 @@ Definition event_ids (ev' : event) : list N := ids (e_creates ev') ++ ids (e_arg
 
 Inductive out := Rejected | Accepted (ev' : event) (rep : list (N * N)).
 
+(* appRecordsType.validEvent (called by BuildRawEvent): a create of a singleton type is refused when a record - active
+   or not - already sits at the type's registry ID.  [sg] = "the guard asks only whether the slot is occupied" *)
+Definition slot_free_gen (sg : bool) (recs : list N) (ev : event) : bool :=
+  if sg then forallb (fun r => (r_single r =? 0) || negb (memb (r_single r) recs)) (e_creates ev) else true.
+Definition slot_free := slot_free_gen c04_singleton_slot_guard.
+Definition accepts (w : wstate) (ev : event) : bool := valid ev && slot_free (w_recs w) ev.
+
 Definition step_event_gen (au ps : bool) (w : wstate) (ev : event) : wstate * out :=
-  if valid ev then
+  if accepts w ev then
     let '(g', ev', rep) := regenerate_gen au ps (w_next w) ev in
-    (mkW g' (w_log w ++ event_ids ev'), Accepted ev' rep)
+    (mkW g' (w_log w ++ event_ids ev') (w_recs w ++ ids (e_creates ev')), Accepted ev' rep)
   else (w, Rejected).
 Definition step_event := step_event_gen c04_arg_updates_on_sync c04_plans_shared.
 
-Definition recover (w : wstate) : wstate := mkW (fold_left update_on_sync (w_log w) c04_first_user_id) (w_log w).
+Definition recover (w : wstate) : wstate := mkW (fold_left update_on_sync (w_log w) c04_first_user_id) (w_log w) (w_recs w).
 
 Inductive iop := IEvent (ws : N) (ev : event) | IRestart.
 
@@ -289,6 +297,14 @@ Fixpoint issued_ok (gen : list N) (ins sts : list row) : bool :=
 Definition new_event_ok (ev : event) (o : obs) : bool :=
   e_sync ev || issued_ok (map snd (o_newids o)) (e_arg ev ++ e_creates ev) (o_arg o ++ o_creates o).
 
+(* every ID the system itself assigns - to a row that came with a raw ID: a generated ID or the registry ID of a
+   singleton - is new to the workspace's log: in particular a singleton is created at most once per workspace *)
+Fixpoint assigned_fresh (seen : list N) (ins sts : list row) : bool :=
+  match ins, sts with
+  | i :: ins', s :: sts' => (negb (is_raw (r_id i)) || negb (memb (r_id s) seen)) && assigned_fresh seen ins' sts'
+  | _, _ => true
+  end.
+
 Fixpoint satisfies_from (seen : N -> list N) (t : trace) : bool :=
   match t with
   | [] => true
@@ -296,6 +312,7 @@ Fixpoint satisfies_from (seen : N -> list N) (t : trace) : bool :=
   | OEvent ws ev o :: rest =>
       if o_ok o then
         subst_ok ev o && new_event_ok ev o && fresh_ok (seen ws) o
+        && assigned_fresh (seen ws) (e_arg ev ++ e_creates ev) (o_arg o ++ o_creates o)
         && satisfies_from (fun k => if k =? ws then seen ws ++ ids (o_creates o) ++ ids (o_arg o) else seen k) rest
       else satisfies_from seen rest
   end.
